@@ -12,8 +12,13 @@ spec grammar (nested lists):
   ["A", n, spec] define alias slot n for the object built from spec (mutable containers/objects)
   ["R", n] reference to alias slot n (shared reference, or a cycle when used inside its own definition)
   ["Z", kind, size, seedint] big payload: kind in bytes|str|list of that size
+  ["d", "1.5"|"NaN"] decimal.Decimal
+  a third element on D / S / F names a SUBCLASS the container is an instance of: ["D", items, "UDict"|"defaultdict"|"OrderedDict"],
+  ["S", items, "USet"], ["F", items, "UFrozenSet"] (OrderedDict is always built in spec order: the order is part of its value)
 """
 
+import collections
+import decimal
 import math
 import random
 
@@ -31,8 +36,31 @@ LEAVES = [
 HASHABLE_KINDS = "ifbnsycTF"
 
 
+SUBCLASSES = {"D": ["UDict", "defaultdict", "OrderedDict"], "S": ["USet"], "F": ["UFrozenSet"]}
+
+
+def container(spec):
+    """the (empty) container a D / S / F spec denotes: the builtin type, or the subclass named by its third element"""
+    name = spec[2] if len(spec) > 2 else None
+    if name is None:
+        return {"D": dict, "S": set, "F": frozenset}[spec[0]]
+    if name == "defaultdict":
+        return lambda *a: collections.defaultdict(None, *a)
+    if name == "OrderedDict":
+        return collections.OrderedDict
+    return getattr(userclasses, name)
+
+
 def gen_spec(rng, depth, hashable=False, objects=False, width=4):
     """random spec; hashable=True restricts to what can be a dict key / set member"""
+    spec = _gen_spec(rng, depth, hashable, objects, width)
+    # one container in 16 is an instance of a subclass of dict / set / frozenset (a frozenset subclass can also be a key or a member)
+    if spec[0] in "DSF" and len(spec) == 2 and rng.random() < 1 / 16:
+        spec = spec + [rng.choice(SUBCLASSES[spec[0]])]
+    return spec
+
+
+def _gen_spec(rng, depth, hashable=False, objects=False, width=4):
     if depth <= 0 or rng.random() < 0.35:
         return rng.choice(LEAVES)
     kinds = ["T", "F"] if hashable else ["L", "T", "D", "S", "F", "L", "D", "B"] + (["O"] if objects else [])
@@ -101,22 +129,24 @@ def build(spec, perm=None, slots=None, strpool=None):
         return [build(s, perm, slots) for s in spec[1]]
     if k == "T":
         return tuple([build(s, perm, slots) for s in spec[1]])
+    if k == "d":
+        return decimal.Decimal(spec[1])
     if k in "SF":
         items = list(spec[1])
         if perm is not None:
             perm.shuffle(items)
         vals = [build(s, perm, slots) for s in items]
         if k == "S":
-            out = set()
+            out = container(spec)()
             for v in vals:
                 out.add(v)
             return out
-        return frozenset(vals)
+        return container(spec)(vals)
     if k == "D":
         items = list(spec[1])
-        if perm is not None:
+        if perm is not None and spec[2:] != ["OrderedDict"]:
             perm.shuffle(items)
-        out = {}
+        out = container(spec)()
         for ks, vs in items:
             out[build(ks, perm, slots)] = build(vs, perm, slots)
         return out
@@ -136,7 +166,7 @@ def build(spec, perm=None, slots=None, strpool=None):
             out.extend(build(s, perm, slots) for s in inner[1])
             return out
         if ik == "D":
-            out = {}
+            out = container(inner)()
             slots[n] = out
             for ks, vs in inner[1]:
                 out[build(ks, perm, slots)] = build(vs, perm, slots)
@@ -184,12 +214,15 @@ def _build_pooled(spec, perm, slots, strpool):
         if perm is not None:
             perm.shuffle(items)
         vals = [_build_pooled(x, perm, slots, strpool) for x in items]
-        return set(vals) if k == "S" else frozenset(vals)
+        return container(spec)(vals)
     if k == "D":
         items = list(spec[1])
-        if perm is not None:
+        if perm is not None and spec[2:] != ["OrderedDict"]:
             perm.shuffle(items)
-        return {_build_pooled(a, perm, slots, strpool): _build_pooled(b, perm, slots, strpool) for a, b in items}
+        out = container(spec)()
+        for a, b in items:
+            out[_build_pooled(a, perm, slots, strpool)] = _build_pooled(b, perm, slots, strpool)
+        return out
     return build(spec, perm, slots)
 
 
@@ -197,9 +230,9 @@ def canon(spec):
     """typed, order-insensitive canonical form (a string)"""
     k = spec[0]
     if k in "SF":
-        return k + "{" + ",".join(sorted(canon(s) for s in spec[1])) + "}"
+        return k + "".join("<%s>" % c for c in spec[2:]) + "{" + ",".join(sorted(canon(s) for s in spec[1])) + "}"
     if k == "D":
-        return "D{" + ",".join(sorted(canon(a) + ":" + canon(b) for a, b in spec[1])) + "}"
+        return "D" + "".join("<%s>" % c for c in spec[2:]) + "{" + ",".join(sorted(canon(a) + ":" + canon(b) for a, b in spec[1])) + "}"
     if k in "LT":
         return k + "[" + ",".join(canon(s) for s in spec[1]) + "]"
     if k == "O":
@@ -229,6 +262,36 @@ def iso(a, b, _map=None, path="$"):
     t = type(a)
     if t in (int, bool, str, bytes, type(None), complex):
         return None if a == b else f"{path}: {a!r:.40} != {b!r:.40}"
+    if t is decimal.Decimal:
+        return None if str(a) == str(b) else f"{path}: {a!r} != {b!r}"
+    if t not in (dict, set, frozenset) and isinstance(a, (dict, set, frozenset)):
+        # instance of a subclass: same class (tested above), same content, same instance attributes
+        if isinstance(a, collections.OrderedDict) and list(a) != list(b):
+            return f"{path}: key order differs"
+        base = dict if isinstance(a, dict) else (set if isinstance(a, set) else frozenset)
+        if base is not frozenset:
+            ia, ib = id(a), id(b)
+            fwd, bwd = _map
+            if ia in fwd or ib in bwd:
+                return None if fwd.get(ia) == ib and bwd.get(ib) == ia else f"{path}: aliasing differs"
+            fwd[ia] = ib
+            bwd[ib] = ia
+        if getattr(a, "default_factory", None) is not getattr(b, "default_factory", None):
+            return f"{path}: default_factory differs"
+        if base is dict:
+            if len(a) != len(b):
+                return f"{path}: dict len {len(a)} vs {len(b)}"
+            for k in a:
+                if k not in b:
+                    return f"{path}: key {k!r:.40} missing"
+                d = iso(a[k], b[k], _map, f"{path}[{k!r:.20}]")
+                if d:
+                    return d
+        elif base(a) != base(b):
+            return f"{path}: set differs"
+        if hasattr(a, "__dict__") or hasattr(b, "__dict__"):
+            return iso(vars(a), vars(b), _map, path + ".__dict__")
+        return None
     if t is float:
         if a == b or (a != a and b != b):
             return None
